@@ -46,7 +46,7 @@ def overlap_obls(prefix):
                        bounds="%d files, 1-byte user keys, sequences 0..7, both types" % n))
     # some_file_overlaps_range / overlap_in_level: level 0 (scan) and level 1 (binary search)
     for lv, n, tier in ((0, 1, "quick"), (0, 2, "quick"), (0, 3, "thorough"), (1, 0, "quick"), (1, 1, "quick"), (1, 2, "quick"),
-                        (1, 3, "quick"), (1, 4, "thorough")):
+                        (1, 3, "quick"), (1, 4, "thorough"), (6, 2, "quick")):
         out.append(Obl("%s.overlaps-range-L%d-N%d" % (prefix, lv, n), "vset/overlap.c", real=VER_REAL, include_real=INC, kit=KIT,
                        defs={"VP_MODE": 1, "VP_LV": lv, "VP_N%d" % lv: n}, unwind=9,
                        unwindset={"memcmp.0": 2, "memcpy.0": 3, "ldb_find_file.0": 4},
@@ -57,7 +57,8 @@ def overlap_obls(prefix):
                             % ("disjoint-sorted" if lv else "level-0 scan"),
                        bounds="%d files in level %d, 1-byte user keys, sequences 0..7" % (n, lv)))
     # get_overlapping_inputs: level 0 (closure with restart) and level 2
-    for lv, n, tier in ((0, 1, "quick"), (0, 2, "quick"), (0, 3, "quick"), (2, 1, "quick"), (2, 2, "quick"), (2, 3, "quick")):
+    for lv, n, tier in ((0, 1, "quick"), (0, 2, "quick"), (0, 3, "quick"), (2, 1, "quick"), (2, 2, "quick"), (2, 3, "quick"),
+                        (6, 2, "quick")):
         out.append(Obl("%s.overlapping-inputs-L%d-N%d" % (prefix, lv, n), "vset/overlap.c", real=VER_REAL, include_real=INC, kit=KIT,
                        defs=dict({"VP_MODE": 3, "VP_LV": lv, "VP_N%d" % lv: n, "VP_VEC_CAP": 10},
                                  **({"VP_KEYMAX": 7, "VP_SEQMAX": 0} if lv == 0 else {})), unwind=9, flags=["--slice-formula"],
